@@ -38,7 +38,7 @@ CONSTANTS
     MidForms,     \* how mid takes names from base
     TopForms,     \* how top takes names from mid; "absent" = no top module
     ClientForms,  \* how the client takes names from the outermost library module
-    Variants,     \* extra shape of the client's imports: "plain","dup","infunc","unused","stacked","late"
+    Variants,     \* extra shape of the client's imports: "plain","dup","infunc","unused","stacked","late","twostars"
     Pkgs,         \* subset of {"flat", "pkgabs", "pkgrel", "subabs", "subrel"}
     MaxUses       \* the client references 1..MaxUses names
 
@@ -66,6 +66,8 @@ Taken(form, src, srcname, all, own) ==
                                  IF "alpha" \in Wanted(src) THEN {<<"alpha", Def(own, "alpha")>>} ELSE {})
       [] OTHER -> {}
 
+\* a second library the client may star-import BEFORE the outer module: its beta is shadowed whenever outer exports one
+ExtraNS == {<<"beta", Def("extra", "beta")>>, <<"zeta", Def("extra", "zeta")>>}
 MidNS(c) == Bind(Taken(c.mid, BaseNS, "base", c.ball, "mid"), {<<"gamma", Def("mid", "gamma")>>})
 TopNS(c) == Bind(Taken(c.top, MidNS(c), "mid", "none", "top"), {<<"delta", Def("top", "delta")>>})
 OuterNS(c) == IF c.top = "absent" THEN MidNS(c) ELSE TopNS(c)
@@ -78,15 +80,18 @@ Reachable(c) ==
     LET ns == OuterNS(c)
         fn == {p \in ns : p[2].n # "<module>"}
     IN CASE c.client \in {"from", "alias"} -> {<<(IF c.client = "alias" THEN "c_" \o p[1] ELSE p[1]), p[2]>> : p \in {q \in fn : Public(q[1])}}
-         [] c.client = "star" -> {p \in Star(ns, "none") : p[2].n # "<module>"}
+         [] c.client = "star" ->
+                LET mine == {p \in Star(ns, "none") : p[2].n # "<module>"}
+                IN IF c.variant = "twostars" THEN Bind(ExtraNS, mine) ELSE mine      \* from extra import * ; from outer import *
          [] c.client \in {"module", "modalias"} -> {<<p[1], p[2]>> : p \in {q \in fn : Public(q[1])}}
          [] OTHER -> {}
 
 Cases == [ball : BaseAlls, mid : MidForms, top : TopForms, client : ClientForms, variant : Variants, pkg : Pkgs,
-          uses : {u \in SUBSET {"alpha", "beta", "gamma", "delta", "al", "bl", "c_alpha", "c_beta", "c_gamma", "c_delta", "c_al", "c_bl"} :
+          uses : {u \in SUBSET {"alpha", "beta", "gamma", "delta", "al", "bl", "zeta", "c_alpha", "c_beta", "c_gamma", "c_delta", "c_al", "c_bl"} :
                       u # {} /\ Cardinality(u) <= MaxUses}]
 Sensible(c) == /\ c.uses \subseteq Names(Reachable(c))
                /\ (c.pkg # "flat" => c.mid # "module")         \* `import pkg.impl` inside the package __init__ is a different story
+               /\ (c.variant = "twostars" => c.client = "star" /\ "beta" \in c.uses)
                /\ (c.variant = "unused" => c.client \in {"from", "alias"} /\ Names(Reachable(c)) \ c.uses # {})
 
 Resolve(c) == {p \in Reachable(c) : p[1] \in c.uses}
@@ -97,7 +102,7 @@ Next == UNCHANGED c
 Spec == Init /\ [][Next]_c
 
 \* sanity: re-exports never change an origin (what the property relies on)
-OriginsAreDefinitions == \A p \in Resolve(c) : p[2].m \in {"base", "mid", "top"} /\ p[2].n # "<module>"
+OriginsAreDefinitions == \A p \in Resolve(c) : p[2].m \in {"base", "mid", "top", "extra"} /\ p[2].n # "<module>"
 
 Dump == PrintT(<<"@@J", ToJson([case |-> [ball |-> c.ball, mid |-> c.mid, top |-> c.top, client |-> c.client, variant |-> c.variant,
                                           pkg |-> c.pkg, uses |-> SetToSeq(c.uses)],
